@@ -384,6 +384,15 @@ def judge(ctx, ep, text, A, rec, must=None, expect=None, deep=False):
         mech = diagnose(ep, A, text, v) or "valid.%s_parsed_to_other_object.%s" % (must, ep)
         rec.violation(mech, case_of(ctx, ep, text, must, expect), s, expect)
         return
+    if ep in ("secret_exponent", "private_key", "secret") and text.isascii() and text.isdigit() and text[:1] != "0" and not A.checksummed:
+        # a plain decimal numeral denotes that number
+        want = int(text) if len(text) < 100 else N
+        if not (1 <= want < N):
+            rec.violation("secret_exponent.accepts_out_of_range", case_of(ctx, ep, text, must, expect), s, None)
+            return
+        if s[0] != "key" or s[1] != want:
+            rec.violation("secret_exponent.decimal_value_differs", case_of(ctx, ep, text, must, expect), s, ["key", want])
+            return
     if ep == "parse_b58_hashed" and v != A.payload:
         rec.violation("b58.payload_differs_from_text", case_of(ctx, ep, text, must, expect), v, A.payload)
         return
